@@ -187,7 +187,7 @@ impl Prop for C16 {
     }
     fn strategy(_tier: Tier) -> BoxedStrategy<Case> {
         let name = prop_oneof![3 => "[a-zA-Z0-9_.]{1,12}", 2 => sjis_string(8), 1 => proptest::sample::select(vec!["Count".to_string(), "Info".to_string(), "".to_string(), "Data".to_string(), "Header".to_string()])];
-        let len = prop_oneof![2 => Just(0u32), 3 => 1u32..=9, 3 => 0u32..=600];
+        let len = prop_oneof![200 => Just(0u32), 300 => 1u32..=9, 300 => 0u32..=600, 1 => 3_000u32..=70_000];
         let negative = prop_oneof![
             8 => Just(Negative::None),
             1 => Just(Negative::NoCountLabel),
@@ -196,7 +196,10 @@ impl Prop for C16 {
             2 => (any::<u16>(), any::<u8>()).prop_map(|(a, b)| Negative::RangePastEnd(a, b)),
             1 => any::<u16>().prop_map(Negative::HugeOffset),
         ];
-        (proptest::collection::vec((name, len, any::<u64>()), 0..=8), any::<bool>(), any::<u64>(), any::<bool>(), negative, prop_oneof![2 => Just(0u8), 1 => Just(1u8), 1 => 0u8..8])
+        let file = (name, len, any::<u64>()).boxed();
+        // 1 case in 100 packs hundreds of files (record table, name strings and label table far beyond 8-bit counts)
+        let files = prop_oneof![99 => proptest::collection::vec(file.clone(), 0..=8), 1 => proptest::collection::vec(file, 260..=1200)];
+        (files, any::<bool>(), any::<u64>(), any::<bool>(), negative, prop_oneof![2 => Just(0u8), 1 => Just(1u8), 1 => 0u8..8])
             .prop_map(|(files, header, layout_seed, alt_image, negative, extras)| Case { files, header, layout_seed, alt_image, negative, extras })
             .boxed()
     }
@@ -277,6 +280,8 @@ impl Prop for C16 {
             cx.nontrivial();
         }
         cx.label_if(case.header, "with-header");
+        cx.label_if(case.files.len() > 255, ">255-files");
+        cx.label_if(case.files.iter().any(|f| f.1 > 65_535), "file>64KiB");
         cx.label_if(!case.header, "without-header");
         cx.label_if(b.empty_body_at_end, "empty-body-at-end-of-data");
         cx.label_if(has_empty, "empty-file");
